@@ -5,6 +5,8 @@
    bytes, versions < 2^64).  Inv = Live0 /\ DiskOk /\ FsWf. *)
 From Cas Require Import History.
 From CasProofs Require Import StoreFS StoreInv StoreWrite StoreHist DiskInv Recover RestartHist PreCreateHist.
+From CasProofs Require SMapProofs ConcInv ConcLin ConcDurable.
+From Cas Require Conc.
 
 (* any history with restarts anywhere, any number of times, from an empty directory (either
    choice of pre_create_cas_dirs): the outputs
@@ -67,3 +69,36 @@ Proof. exact Recover.restart_ok. Qed.
 Print Assumptions C02_one_restart.
 
 Example C02_nonvacuous := RestartHist.toy_restart_theorem_instance.
+
+(* restart after CONCURRENT use (proofs/ConcDurable.v): whatever the interleaving of the threads
+   was, the records their commits appended to the log -- version i+1 and the encoded operation
+   for the i-th entry of the write log of the concurrent model (proofs/ConcLin.v: one entry per
+   WLockW step, in step order) -- are replayed by the recovery loop of the sequential model
+   (Store.replay_records) into exactly the index the threads left in memory: same keys, same
+   reference counts, same statistics, and the same next version.  [op_good]: the logged
+   operations fit the format's size fields and their keys are valid for the key type. *)
+Theorem C02_concurrent_log_replays :
+  forall H : bytes -> bytes,
+    (forall b, length (H b) = 32%nat) -> (forall b, Forall (fun x => x < 256) (H b)) ->
+  forall cfg : config, 0 < c_n cfg ->
+  forall (bad : bytes -> bool) (ckbad : bool) (thr0 : list (nat * list Conc.ccall)),
+    NoDup (map fst thr0) ->
+  forall cas0 : smap bytes,
+    SMap.sorted lex_cmp cas0 -> (forall h c, In (h, c) cas0 -> H c = h) ->
+    (forall a b, In a (ConcInv.allc thr0 cas0) -> In b (ConcInv.allc thr0 cas0) -> H a = H b -> a = b) ->
+  forall (sched : list nat) (n : nat), (n <= ConcLin.NN sched)%nat ->
+    Forall (op_good cfg) (ConcDurable.logged H cfg bad ckbad thr0 cas0 sched n) ->
+    exists st' : istate,
+      replay_records cfg 0 (ConcDurable.records H cfg bad ckbad thr0 cas0 sched n) empty_istate 0 0
+        = Ok (st', N.of_nat (length (ConcDurable.logged H cfg bad ckbad thr0 cas0 sched n)),
+                   N.of_nat (length (ConcDurable.logged H cfg bad ckbad thr0 cas0 sched n))) /\
+      km st' = km (Conc.g_idx (ConcLin.st H (key_cmp (c_kt cfg)) (c_n cfg) bad ckbad thr0 cas0 sched n)) /\
+      rc st' = rc (Conc.g_idx (ConcLin.st H (key_cmp (c_kt cfg)) (c_n cfg) bad ckbad thr0 cas0 sched n)) /\
+      ub st' = ub (Conc.g_idx (ConcLin.st H (key_cmp (c_kt cfg)) (c_n cfg) bad ckbad thr0 cas0 sched n)) /\
+      tb st' = tb (Conc.g_idx (ConcLin.st H (key_cmp (c_kt cfg)) (c_n cfg) bad ckbad thr0 cas0 sched n)) /\
+      Conc.g_nextv (ConcLin.st H (key_cmp (c_kt cfg)) (c_n cfg) bad ckbad thr0 cas0 sched n)
+        = N.of_nat (length (ConcDurable.logged H cfg bad ckbad thr0 cas0 sched n)) + 1.
+Proof. exact ConcDurable.C02_concurrent_log_replays. Qed.
+Print Assumptions C02_concurrent_log_replays.
+
+Example C02_concurrent_nonvacuous := ConcDurable.C02_conc_ex.
